@@ -44,7 +44,8 @@ RULE = ('ini files are generated from a grammar, exhaustively inside the bounds:
         'Undefined); cases are distinct by file text; an outcome is the digest of everything observed '
         '(typed option values, worker environments, socket/plugin/circus values).')
 ASSUMPTIONS = [
-    'os.environ is exactly {C16_HOME, C16_PORT, C16_N} while a file is read (saved and restored)',
+    'os.environ is exactly {C16_HOME, C16_PORT, C16_N} while a file is read (saved and restored); family R adds '
+    'the referenced variable x<k>_var itself when its definition site includes os.environ',
     'syntax limited to what the documentation shows: "name = value" lines, one value per line, no '
     'inline comments, no duplicate sections or options, option names spelled as documented',
     'booleans spelled True/False/true/false as in the documentation; other spellings are not compared',
@@ -610,7 +611,7 @@ def _src(val):
     if val.startswith('g'):
         return '[env]'
     if val.startswith('p') and val[1:2].isdigit():
-        return 'env:#%s' % val[1]
+        return '[env:NAME]#%s' % val[1]
     return 'other'
 
 
@@ -843,7 +844,7 @@ class Checker(object):
         skip = set()
         if exp['written'].get('virtualenv'):
             skip = {'PATH', 'PYTHONPATH'}       # "loads its content into the execution environment"
-        layered = len(set(_src(v) for v in want.values())) > 1 or bool(want)
+        layered = len(set(_src(v) for v in want.values())) > 1      # two or more layers really meet
         self.observed['%s.env' % name] = repr(sorted(got.items()))
         # a variable nobody wrote
         extra = sorted(k for k in got if k not in want and k not in skip)
@@ -974,7 +975,18 @@ def run_shard(shard, tier):
 
 
 def replay_case(case):
+    """Failing (clause, detail, where) of this single case; known findings are printed, not returned
+    (vt.main.replay decides by clause id only, and e.g. F30 fails C16.env_precedence on every tree)."""
+    from vt import findings as F
     r = EnumResult()
     with Scratch() as scratch:
         check_case(case, scratch, r)
-    return [(v['clause'], v['detail'], v['where']) for v in r.violations]
+    known = F.load_known()
+    out = []
+    for v in r.violations:
+        k = F.match_known(known, ID, v)
+        if k is not None:
+            print('KNOWN-FINDING (not counted): %s at %s: %s' % (v['clause'], v['where'], k['id']))
+            continue
+        out.append((v['clause'], v['detail'], v['where']))
+    return out
